@@ -24,9 +24,9 @@ fn sandbox_dir() -> PathBuf {
 }
 
 pub fn gen_case(rng: &mut Rng, faults: bool) -> CliCase {
-    let input_name = rng.pick(&["in.xml", "input file.xml", "вход.xml", "a.b.c", "x", "-.xml", "-"]).to_string();
+    let input_name = rng.pick(&["in.xml", "input file.xml", "вход.xml", "a.b.c", "x", "-.xml", "-", "in.xml ", " in.xml", "in\t.xml"]).to_string();
     let input_name = if input_name == "-.xml" { "./-.xml".to_string() } else { input_name };
-    let mut output_name = rng.pick(&["out.rs", "out put.rs", "выход.rs", "o", "sub.dir.rs"]).to_string();
+    let mut output_name = rng.pick(&["out.rs", "out put.rs", "выход.rs", "o", "sub.dir.rs", " out.rs", "out.rs "]).to_string();
     let input = match rng.below(100) {
         0..=54 => {
             let mut cfg = GenCfg::draw(rng, false);
